@@ -15,6 +15,7 @@ from rsx.ctor import bind_args, subst
 from .common import (AnalysisError, Finding, RuleResult, MustFlow, ntext, walk_no_nested,
                      body_stmts)
 from .r08_derived_keep_set import find_sites, SCAN_MODULES
+from rsx.webs import display as _disp
 
 RULE = 'R13'
 TEXT = ('an equality robust constraint is split into exactly the pair (e <= 0, -e <= 0): the two '
@@ -181,6 +182,7 @@ def run(repo):
         if not any(isinstance(n, ast.Call) and isinstance(n.func, ast.Name) and n.func.id == 'isinstance'
                    for n in walk_no_nested(fi.node)):
             continue
+        fi = repo.websplit(fi)          # `raffine = -raffine` between the halves: two variables, not one
         fl = find_sites(repo, fi)
         sites = []
         seen = set()
@@ -213,6 +215,33 @@ def run(repo):
             if ea is None or eb is None:
                 raise AnalysisError('cannot bind constructor arguments at %s' % repo.where(fi, a['stmt']))
             problems = []
+            # an argument that reads a field back from the first half (left.ctype) is the argument the first
+            # half's constructor stored there
+            from rsx.ctor import ctor_fields
+            fa_ = ctor_fields(repo, k, a['call']) or {}
+            for p_, v_ in list(eb.items()):
+                if isinstance(v_, ast.Attribute) and isinstance(v_.value, ast.Name) and v_.value.id == a['new'] and \
+                        len(fa_.get(v_.attr, [])) == 1:
+                    eb[p_] = fa_[v_.attr][0]
+            # a local that is rebound somewhere in the function does not denote one value: the texts of the
+            # two halves cannot be compared through it
+            multi = {}
+            for n_ in walk_no_nested(fi.node):
+                if isinstance(n_, (ast.Assign, ast.AugAssign, ast.For)):
+                    for t_ in (n_.targets if isinstance(n_, ast.Assign) else [n_.target]):
+                        for x_ in ast.walk(t_):
+                            if isinstance(x_, ast.Name) and isinstance(x_.ctx, ast.Store):
+                                multi[x_.id] = multi.get(x_.id, 0) + 1
+            lo, hi = a['stmt'].lineno, b['stmt'].lineno
+            for env_ in (ea, eb):
+                for p_, v_ in env_.items():
+                    for x_ in ast.walk(_inline(fi, v_)):
+                        if isinstance(x_, ast.Name) and multi.get(x_.id, 0) > 1 and x_.id not in (a['new'], b['new']):
+                            if any(isinstance(n_, ast.Name) and n_.id == x_.id and isinstance(n_.ctx, ast.Store) and
+                                   lo <= getattr(n_, 'lineno', -1) <= hi for n_ in walk_no_nested(fi.node)):
+                                raise AnalysisError('%s: `%s` is rebound between the two halves of the split; the '
+                                                    'rule compares the halves by the text of their arguments'
+                                                    % (fi.fq, x_.id))
             coeff = COEFF.get(a['cls'])
             if coeff is None:
                 for c in repo.mro(k):
@@ -243,8 +272,8 @@ def run(repo):
             res.inst({'function': fi.fq, 'class': a['cls'], 'first': ntext(a['stmt'])[:70],
                       'second': ntext(b['stmt'])[:70], 'ok': ok}, ok)
             for pr in problems:
-                res.fail(Finding(RULE, fi.fq, 'split %s/%s: %s' % (a['new'], b['new'], pr.split(':')[0]),
-                                 '%s splits an equality %s into `%s` and `%s`, but %s'
-                                 % (fi.fq, a['cls'].split('.')[1], a['new'], b['new'], pr),
+                res.fail(Finding(RULE, fi.fq, _disp('split %s/%s: %s' % (a['new'], b['new'], pr.split(':')[0])),
+                                 _disp('%s splits an equality %s into `%s` and `%s`, but %s'
+                                       % (fi.fq, a['cls'].split('.')[1], a['new'], b['new'], pr)),
                                  repo.where(fi, a['stmt'])))
     return res
